@@ -32,3 +32,12 @@ def run(ctx, test="^TestVerifC05$", name="C05", files=None):
         # a frame which cannot be decoded must not stop the requests behind it from being answered (real sockets, child processes)
         import props.C09 as c09
         c09.run(ctx, test="^TestVerifC05Frames$", name="C05-frames")
+        # requests which arrive before the service is registered are not served; every request after the registration is
+        import props.C07 as c07
+        rc3, out3, recs3 = ctx.go("", "^TestVerifC05RegisterLater$", c07.FILES, "wsrpc", timeout=240)
+        ctx.records += recs3
+        if rc3 != 0 or not recs3:
+            ctx.fail("harness:C05-register-later", "the harness did not run to completion on this tree: " + out3[-1200:], kind="correspondence", no_input=True)
+        for r in recs3:
+            if r.get("fail"):
+                ctx.fail(r["fail"], "monitor '%s' failed: %s" % (r["fail"], str(r.get("info"))[:400]), case=r)
